@@ -854,7 +854,7 @@ func writeEvidence(id, tier string, seed int, pc *PropCfg, ld *Loaded, ex *Exec,
 		"undecided":                 undecided,
 		"obligations_failing_known": knownSeen,
 		"failed":                    failed,
-		"missing_targets":           missing,
+		"missing_targets":           append(missing, sortedKeys(MissingLoopTargets)...),
 		"vanished_vs_baseline":      vanished,
 		"paths_explored":            ex.stateN + 1,
 		"path_cap_hit":              ex.pathCap,
@@ -1074,4 +1074,13 @@ func updateSignatureBaseline(ld *Loaded) {
 	}
 	b, _ := json.MarshalIndent(m, "", " ")
 	os.WriteFile(filepath.Join(verifRoot, "signatures.baseline.json"), b, 0o644)
+}
+
+func sortedKeys(m map[string]bool) []string {
+	var out []string
+	for k := range m {
+		out = append(out, k)
+	}
+	sort.Strings(out)
+	return out
 }
